@@ -116,7 +116,7 @@ Fixpoint map_loop (fuel : nat) (h : heap) (s : str) (f : Z -> Z) (i : nat) (o : 
   | O => if (i <? ssize s)%nat then Err FuelErr else Ok o
   | S fu =>
       if (i <? ssize s)%nat then
-        match decode_at (sdata h s) i with
+        match decode_at (sdata h s) i (remaining s i) with
         | None => Err Utf8Err
         | Some c => match write_char o (f c) with
                     | Err e => Err e
